@@ -1,6 +1,6 @@
 (* Dispatch.v — name -> model runner / spec checker, for the extracted driver *)
 From Coq Require Import String List Ascii ZArith Bool.
-From QH Require Import Bytes Value Range Spec_C16 HeaderMap Parser SocketM SockIO Spec_C01 SockSpec Router SrvIO RouterSpec Copier Spec_C14 Base64 BasicAuth Spec_C09.
+From QH Require Import Bytes Value Range Spec_C16 HeaderMap Parser SocketM SockIO Spec_C01 SockSpec Router SrvIO RouterSpec Copier Spec_C14 Base64 BasicAuth Spec_C09 LocalAuth Spec_C17 SlotHandler Spec_C15.
 Import ListNotations.
 
 Definition run (fam : bytes) (c : value) : value :=
@@ -16,6 +16,9 @@ Definition run (fam : bytes) (c : value) : value :=
   else if beq fam (B "copier") then run_copier c
   else if beq fam (B "bauth") then run_bauth c
   else if beq fam (B "b64") then run_b64 c
+  else if beq fam (B "lauth") then run_lauth c
+  else if beq fam (B "slot") then run_slot c
+  else if beq fam (B "lauth_unique") then run_lauth_unique c
   else verr.
 
 (* spec checker of property [prop] evaluated on an observation of family [fam] *)
@@ -27,6 +30,8 @@ Definition chk (prop fam : bytes) (c o : value) : bool :=
   else if beq prop (B "C04") then (if beq fam (B "sock") || beq fam (B "srv") then chk_C04 c o else true)
   else if beq prop (B "C05") || beq prop (B "C06") then (if beq fam (B "srv") then chk_route c o else if beq fam (B "srvm") then chk_route_multi c o else true)
   else if beq prop (B "C09") then (if beq fam (B "bauth") then chk_C09 c o else true)
+  else if beq prop (B "C15") then (if beq fam (B "slot") then chk_C15 c o else true)
+  else if beq prop (B "C17") then chk_C17 fam c o
   else if beq prop (B "C14") then (if beq fam (B "copier") then chk_C14 c o else true)
   else if beq prop (B "C18") then (if beq fam (B "sock") then chk_C18 c o else true)
   else if beq prop (B "C19") then (if beq fam (B "sock") || beq fam (B "srv") then chk_C19_sock c o else true)
